@@ -2,12 +2,16 @@
     trees (hdr / body / set / inv / reval / rm / rmpl; ALT with empty payloads and the PoW tree):
     proper tree, heights follow parents, failed parent => FAILED_CHILD, live blocks >= VALID_TREE; together with
     [tip_ok] it gives: the best chain root..tip runs through non-failed blocks only.
-    _partial: the conjuncts "tips = usable blocks without usable child", "ACTIVE <=> on the best chain,
-    appliedBlockCount = |chain|", "connected => ancestors connected" are not proved; they are checked on the
-    implementation after every step by harness/invariants.hpp (T1, C1, C2, V2). *)
+    The tips conjunct [Tips_ok] (tips = usable blocks without usable child) is proved for set / inv / reval / rm of
+    both trees and hdr (block not in the store) / body / rmpl of the ALT tree.
+    _partial, exact missing pieces: (1) Tips_ok for re-adding the header of a REMOVED block and for the PoW
+    acceptBlockHeader - both need the model invariant "a removed block is at VALID_UNKNOWN and has only removed
+    children" (S3 of harness/invariants.hpp); (2) the conjuncts "ACTIVE <=> on the best chain, appliedBlockCount =
+    |chain|" and "connected => ancestors connected". These are checked on the implementation after every step by
+    harness/invariants.hpp (T1, S3, C1, C2, V2). *)
 From Coq Require Import ZArith NArith List Bool.
 From VB Require Import Tree.TreeDefs Tree.TreeInv Tree.TreePass Tree.TreeProofs Tree.TreeExact Tree.TreeMono
-  Tree.TreeSteps Tree.TreeChain.
+  Tree.TreeSteps Tree.TreeChain Tree.TreeTips Tree.TreeTipsOps Tree.TreeTipsUp Tree.TreeTipsAlt.
 Import ListNotations.
 
 Theorem C07_init_alt : forall h, Inv_flags (alt_init h) /\ tip_ok (alt_init h).
@@ -25,6 +29,19 @@ Print Assumptions C07_step_partial.
 Theorem C07_run_partial : forall ops s, Inv_flags s /\ tip_ok s -> Inv_flags (run s ops) /\ tip_ok (run s ops).
 Proof. exact run_good. Qed.
 Print Assumptions C07_run_partial.
+
+(* the tips conjunct: tips = { b | canBeATip b and no child canBeATip } *)
+Theorem C07_init_tips_alt : forall h, Tips_ok (alt_init h).
+Proof. exact init_tips_ok_alt. Qed.
+Print Assumptions C07_init_tips_alt.
+
+Theorem C07_init_tips_pow : forall h w, Tips_ok (pow_init h w).
+Proof. exact init_tips_ok_pow. Qed.
+Print Assumptions C07_init_tips_pow.
+
+Theorem C07_step_tips_partial : forall s o, Inv_flags s -> Tips_ok s -> tips_op s o -> Tips_ok (step s o).
+Proof. exact step_tips_partial. Qed.
+Print Assumptions C07_step_tips_partial.
 
 (* a block is valid only if its parent is not failed; every child of a failed block is failed *)
 Theorem C07_valid_parent_not_failed :
